@@ -69,6 +69,7 @@ func checkC02(c *Ctx) {
 		c10Frames(c, p, m)
 		c10Creation(c, p, m)
 		messageIdentity(c, p, "R05.10")
+		lookupHitIsPure(c, p, "R10.4")
 		c13Fanout(c, p, m)
 	}
 	r.Rule("R01.3", "(shared with C01) not admitted means nothing is written: the admission decision function of Level.Enabled equals the documented rule (Off before Always before the order)")
